@@ -103,6 +103,23 @@ namespace smt
         }
     }
 
+    SMT_EXPORT std::vector<lit> lra_theory::get_unassigned_assertions() const noexcept
+    {
+        std::vector<lit> lits;
+        for (const auto &[v, a] : v_asrts)
+            if (sat->value(v) == Undefined)
+                switch (a->o)
+                {
+                case leq:
+                    lits.push_back(lit(v, vals[a->x] <= a->v));
+                    break;
+                case geq:
+                    lits.push_back(lit(v, vals[a->x] >= a->v));
+                    break;
+                }
+        return lits;
+    }
+
     SMT_EXPORT lit lra_theory::new_leq(const lin &left, const lin &right) noexcept
     {
         lin expr = left - right;
